@@ -451,7 +451,8 @@ PLANS["C07"] = {
     "technique": "runtime monitoring: differential oracle against an independent format codec (both directions) + reference-model query monitors on foreign files",
     "assumptions": ["empty RL vector: sample width 1 is taken as minimal", "wavelet matrix of an empty vector: alphabet {0}, width 1", "WMCore width is only required to hold the largest item",
                     "sparse low width: any w in 1..=64 is treated as admissible for a foreign writer (the document says w ~ log2(n) - log2(m), w >= 1)",
-                    "optional support structures are written as absent by the foreign writer (they cannot be produced opaquely)"],
+                    "optional support structures are written as absent by the foreign writer (they cannot be produced opaquely)",
+                    "run-length files: a final block of exactly 64 code units whose tail is zero padding is treated as admissible for a foreign writer (the document only forbids padding in a final block that is not full); the unchanged library accepts such files"],
 }
 PLANS["C07"]["require"]["thorough"] = PLANS["C07"]["require"]["quick"]
 
